@@ -545,6 +545,8 @@ pub struct World {
     pub dropped_names: Vec<String>,
     /// indexed columns whose rows were rewritten by an update/merge while the index existed (stable row ids)
     pub stale_indexed_cols: BTreeSet<String>,
+    /// a compaction with deferred index remap committed while an index existed (address-style row ids)
+    pub deferred_remap_pending: bool,
 }
 
 pub enum StepOutcome {
@@ -663,6 +665,7 @@ impl World {
             last_effect: None,
             dropped_names: vec![],
             stale_indexed_cols: BTreeSet::new(),
+            deferred_remap_pending: false,
         };
         w.versions.insert(v, VersionState { schema, rows, ordered: true, config: BTreeMap::new(), indices: BTreeMap::new() });
         w.latest = v;
@@ -696,8 +699,8 @@ impl World {
         let known: Vec<u64> = self.versions.keys().copied().collect();
         let (read_version, stale) = match step.stale {
             Some(f) if known.len() > 1 && !matches!(step.op, Op::Reopen | Op::Tag { .. }) => {
-                // only among the last 3 versions: older handles mostly conflict
-                let lo = known.len().saturating_sub(3);
+                // only among the last 4 versions: older handles mostly conflict
+                let lo = known.len().saturating_sub(4);
                 let v = known[lo + idx(f, known.len() - lo)];
                 (v, v != self.latest)
             }
@@ -741,6 +744,23 @@ impl World {
             if risky {
                 obs.known_hit("C16-simplifier-null-tautology", format!("{} skipped: predicate holds a comparison and its complement on a nullable column", step.op.kind()));
                 return Ok(StepOutcome::NoOp);
+            }
+        }
+        // Known finding C13-immediate-remap-after-deferred: a compaction that remaps indices immediately, run after a
+        // compaction with deferred remap, drops the rows of the twice-moved fragments from the index.  With the
+        // finding listed such compactions are generated as deferred ones instead.
+        let step_owned;
+        let mut step = step;
+        if self.deferred_remap_pending && !self.cfg.stable_row_ids && self.known.contains("C13-immediate-remap-after-deferred") {
+            let replaced = match &step.op {
+                Op::Compact { target_rows, materialize, threshold_pct, defer_remap: false, max_rows_per_group } => Some(Op::Compact { target_rows: *target_rows, materialize: *materialize, threshold_pct: *threshold_pct, defer_remap: true, max_rows_per_group: *max_rows_per_group }),
+                Op::CompactTasks { target_rows, materialize, threshold_pct, defer_remap: false, picks, reverse, split_commits } => Some(Op::CompactTasks { target_rows: *target_rows, materialize: *materialize, threshold_pct: *threshold_pct, defer_remap: true, picks: picks.clone(), reverse: *reverse, split_commits: *split_commits }),
+                _ => None,
+            };
+            if let Some(op) = replaced {
+                obs.known_hit("C13-immediate-remap-after-deferred", "immediate-remap compaction after a deferred one generated as deferred".to_string());
+                step_owned = Step { op, stale: step.stale };
+                step = &step_owned;
             }
         }
         if matches!(step.op, Op::OptimizeIndices { .. }) && self.cfg.stable_row_ids && !self.stale_indexed_cols.is_empty() && self.known.contains("C19-stale-index-after-update-stable-rowids") {
@@ -804,9 +824,19 @@ impl World {
                 }
                 if let Some((_, col)) = &effect.index_add {
                     self.stale_indexed_cols.remove(col);
+                    if stale && self.cfg.stable_row_ids {
+                        // built at an older version: rows rewritten since are indexed with their old values
+                        self.stale_indexed_cols.insert(col.clone());
+                    }
                 }
                 if effect.overwrite.is_some() || effect.restore.is_some() {
                     self.stale_indexed_cols.clear();
+                    self.deferred_remap_pending = false;
+                }
+                if effect.kind == "compact" && !self.versions[&before_latest].indices.is_empty() {
+                    if let Op::Compact { defer_remap: true, .. } | Op::CompactTasks { defer_remap: true, .. } = &step.op {
+                        self.deferred_remap_pending = true;
+                    }
                 }
                 self.history.push(step.op.kind().to_string());
                 if stale {
